@@ -8,6 +8,7 @@ if TYPE_CHECKING:
     from datetime import datetime
 
     from repid.data.protocols import ParametersT, RoutingKeyT
+    from repid.message import MessageCategory
 
 
 @dataclass(frozen=True)
@@ -23,6 +24,19 @@ class DummyQueue:
     delayed: dict[datetime, list[Message]] = field(default_factory=dict)
     dead: list[Message] = field(default_factory=list)
     processing: set[Message] = field(default_factory=set)
+    # id of a message in `processing` -> (category it was taken from, its key in `delayed`)
+    origins: dict[str, tuple[MessageCategory, datetime | None]] = field(default_factory=dict)
+
+    def give_back(self, msg: Message) -> None:
+        """Moves the message from `processing` back to where it was taken from."""
+        self.processing.discard(msg)
+        category, delayed_until = self.origins.pop(msg.key.id_, ("NORMAL", None))
+        if category == "DELAYED" and delayed_until is not None:
+            self.delayed.setdefault(delayed_until, []).append(msg)
+        elif category == "DEAD":
+            self.dead.append(msg)
+        else:
+            self.simple.put_nowait(msg)
 
 
 def wait_until(params: ParametersT | None = None) -> datetime | None:
